@@ -104,7 +104,31 @@ func c09ResetGlobals() {
 // ---------------------------------------------------------------- question tagging
 
 var c09Names = []string{"a.c09.test.", "b.c09.test.", "a.b.c09.test."}
-var c09Qtypes = []uint16{dnsmessage.TypeA, dnsmessage.TypeAAAA, dnsmessage.TypeTXT}
+// qtype pool: the common ones, neighbours (64/65), and types that share their low
+// byte with another one (1/257/513/65281, 255/65535, 0/256 -> 256) so that any
+// narrowing of the type in a cache / singleflight key shows.
+var c09Qtypes = []uint16{dnsmessage.TypeA, dnsmessage.TypeAAAA, dnsmessage.TypeTXT, 64, 65, 255, 256, 257, 513, 65281, 65535}
+
+var c09QtypeFamilies = [][]uint16{
+	{1, 257, 513, 65281},
+	{257, 1, 28},
+	{255, 65535, 256},
+	{64, 65, 1},
+	{1, 28, 16},
+	c09Qtypes,
+}
+
+// c09DrawQtypeSet draws the 1-3 qtypes one case uses.
+func c09DrawQtypeSet(t *rapid.T) []uint16 {
+	fam := c09QtypeFamilies[rapid.IntRange(0, len(c09QtypeFamilies)-1).Draw(t, "qtypeFamily")]
+	n := rapid.IntRange(1, 3).Draw(t, "nTypes")
+	rot := rapid.IntRange(0, len(fam)-1).Draw(t, "qtypeRot")
+	out := make([]uint16, 0, n)
+	for i := 0; i < n && i < len(fam); i++ {
+		out = append(out, fam[(rot+i)%len(fam)])
+	}
+	return out
+}
 
 func c09Tag(name string, qtype uint16) uint32 {
 	h := fnv.New32a()
